@@ -3,6 +3,8 @@ import Sqfs.Model.ImageValidate
 import Sqfs.Model.DirWriter
 import Sqfs.Model.MetaWriter
 import Sqfs.Model.IdTable
+import Sqfs.Model.Finish
+import Sqfs.Model.Numbering
 /-!
 `sqfsmodel c03 <mode>`
 
@@ -115,8 +117,69 @@ def opIds (lim : Nat) (ids : List Nat) (range : Bool) : String :=
     let sz := blks.foldl (fun a b => a + 2 + b.stored.length) 0
     s!"{head} id_count={superIdCount tbl} table_bytes={sz}"
 
+def parseTbl (s : String) : Option (Option Sqfs.Finish.Tbl) :=
+  if s == "-" then some none else
+  match (s.splitOn ",").mapM String.toNat? with
+  | some [a, b] => some (some ⟨a, b⟩)
+  | _ => none
+
+def parseXTbl (s : String) : Option (Option Sqfs.Finish.XTbl) :=
+  if s == "-" then some none else
+  match (s.splitOn ",").mapM String.toNat? with
+  | some [a, b, c] => some (some ⟨a, b, c⟩)
+  | _ => none
+
+def opFinish (ws : List String) : String :=
+  match ws with
+  | [de, ib, db, fr, ex, id, xa, dv] =>
+    match de.toNat?, ib.toNat?, db.toNat?, parseTbl fr, parseTbl ex, parseTbl id, parseXTbl xa, dv.toNat? with
+    | some de, some ib, some db, some fr, some ex, some (some id), some xa, some dv =>
+      let l := Sqfs.Finish.finish ⟨de, ib, db, fr, ex, id, xa, dv⟩
+      s!"{l.inodeTable} {l.dirTable} {l.fragTable} {l.exportTable} {l.idTable} {l.xattrTable} {l.bytesUsed} {l.fileSize}"
+    | _, _, _, _, _, _, _, _ => "bad-op"
+  | _ => "bad-op"
+
+section Num
+open Sqfs.Numbering
+
+/-- spec → forest; returns the rest of the input after a `)` or at the end -/
+def parseForest : Nat → List Char → Option (List Tree × List Char)
+  | 0, _ => none
+  | _ + 1, [] => some ([], [])
+  | _ + 1, ')' :: r => some ([], ')' :: r)
+  | f + 1, 'f' :: r => (parseForest f r).map (fun (ts, r') => (Tree.file :: ts, r'))
+  | f + 1, 'h' :: r => (parseForest f r).map (fun (ts, r') => (Tree.hlink :: ts, r'))
+  | f + 1, '(' :: r =>
+    match parseForest f r with
+    | some (cs, ')' :: r1) => (parseForest f r1).map (fun (ts, r') => (Tree.dir cs :: ts, r'))
+    | _ => none
+  | _ + 1, _ => none
+
+mutual
+def showT : NTree → String
+  | .file n => toString n
+  | .hlink => "-"
+  | .dir n cs => "(" ++ showL cs ++ ")" ++ toString n
+def showL : List NTree → String
+  | [] => ""
+  | [t] => showT t
+  | t :: r => showT t ++ " " ++ showL r
+end
+
+def opNum (spec : String) : String :=
+  match parseForest (spec.length + 2) spec.toList with
+  | some (cs, []) =>
+    let r := numberRoot cs
+    s!"{showT r.1} count={r.2}"
+  | _ => "bad-op"
+
+end Num
+
 def opStep (line : String) : String :=
   match words line with
+  | "finish" :: ws => opFinish ws
+  | ["num"] => opNum ""
+  | ["num", spec] => opNum spec
   | "conseq" :: off :: ents =>
     match off.toNat?, ents.mapM parseEntConseq with
     | some o, some es => if es.isEmpty then "bad-op" else toString (conseqCount o es)
